@@ -7,6 +7,8 @@ SeedsT == {0, 1, 7, 12345, 2147483647}
 StructQ == {"DA", "DA2s2f", "DS2", "LIST2", "DAmulti"}
 StructT == StructQ \cup {"DAstr", "DAdatetime"}
 NamesAll == {"default", "sf", "s_only", "f_only"}
+MagNeg10 == 0 - 10
+MagAll == {0, MagNeg10, 8}
 FlAll == {"none", "std", "coslat", "nocenter"}
 Emit == phase = "done" => PrintT(<<"@@", ToJson([cfg |-> cfg, pred |-> pred])>>)
 =============================================================================
